@@ -161,7 +161,6 @@ pub fn cycles<const V: u32>(d: &mut Driver<V>, p: &Params, ncycles: u64, heap_mb
             let sem = if matches!(sem, 1 | 3 | 4 | 5) { 0 } else { sem }; // never-collected spaces cannot be reclaimed
             let sem = if sem == 6 && size > 4096 { 0 } else { sem }; // non-moving space: small objects only
             let sem = if sem == 2 && size < 8192 { 0 } else { sem }; // a page per small object would fill the heap
-            let prev = Driver::<V>::root_get(0, 0);
             let r = d.new_object(0, 1, sem, size, 1, 8, 0, KIND_PLAIN);
             if r == 0 {
                 failed += 1;
@@ -170,6 +169,8 @@ pub fn cycles<const V: u32>(d: &mut Driver<V>, p: &Params, ncycles: u64, heap_mb
                 }
                 continue;
             }
+            // the chain head is read after the allocation: the allocation may have collected
+            let prev = Driver::<V>::root_get(0, 0);
             if prev != 0 {
                 Driver::<V>::root_set(0, 2, prev);
                 d.write_field(0, 1, 0, prev);
